@@ -90,6 +90,7 @@ func cmpUses(call *ssa.Call) []ssa.Value {
 func runC12(c *Ctx, r *Report) {
 	r.Rule("C12.R1", "single comparator, consistent thresholds: <, <=, >, >=, min, max, sort (Less) and map key search (CompareKeys) all call object.Cmp with operands in source order and interpret its result by predicates whose truth sets on {-1,0,1} are {-1}, {-1,0}, {1}, {0,1} (strict min/max/Less: {-1}/{1}/{-1}); == and != go through Equals")
 	r.Rule("C12.R2", "three-valued and antisymmetric by construction: every return of Cmp is a constant in {-1,0,1}, a cmp.Compare or a recursive Cmp; their first operands derive from Cmp's first parameter and second from the second; each `if L<R return -1` has the mirrored `if L>R return 1`")
+	r.Rule("C12.R6", "no overflowing conversion in the comparator: a float64 -> integer conversion in Cmp or in a function whose result Cmp returns is dominated by comparisons that confine the float to [-2^63, 2^63) (the upper bound strictly)")
 	r.Rule("C12.R3", "order embeddings only: no lossy numeric conversion (int64 -> float64) feeds a comparison inside the comparator")
 	r.Rule("C12.R4", "totality: every explicit panic arm of Cmp is for a tag that no program-visible value can carry (no concrete type has it, or it is removed by Value()/Eval before comparison); a tag a program can construct must not panic")
 	r.Rule("C12.R5", "Equals(a,b) = TypeEqual(a.Type(), b.Type()) && Cmp(a,b) == 0, with operands in order")
@@ -268,6 +269,7 @@ func runC12(c *Ctx, r *Report) {
 			fmt.Sprintf("operand roles are mixed (first arg from params {%v,%v}, second from {%v,%v}): Cmp(a,b) and Cmp(b,a) are no longer mirror images", a0, a1, b0, b1))
 	}
 	nret := 0
+	helpers := map[*ssa.Function]bool{} // functions whose result Cmp returns (directly or negated)
 	var okRet func(v ssa.Value, seen map[ssa.Value]bool) (bool, string)
 	okRet = func(v ssa.Value, seen map[ssa.Value]bool) (bool, string) {
 		if seen[v] {
@@ -297,7 +299,24 @@ func runC12(c *Ctx, r *Report) {
 			if obj := calleeObj(x); obj != nil && obj.Pkg() != nil && obj.Pkg().Path() == "strings" && obj.Name() == "Compare" {
 				return true, ""
 			}
+			// a helper of the comparator: its own returns must be three-valued
+			if h := x.Common().StaticCallee(); h != nil && isModuleSSA(h) && h.Blocks != nil && len(seen) < 64 {
+				helpers[h] = true
+				okAll, whyAll := true, ""
+				eachInstr(h, func(in ssa.Instruction) {
+					if ret, isRet := in.(*ssa.Return); isRet && len(ret.Results) == 1 {
+						if ok, why := okRet(retVal(ret, 0), seen); !ok {
+							okAll, whyAll = false, why+" (returned by helper "+ssaFuncName(h)+")"
+						}
+					}
+				})
+				return okAll, whyAll
+			}
 			return false, "result of " + nameOfCallee(x)
+		case *ssa.UnOp:
+			if x.Op == token.SUB { // negation keeps {-1,0,1}
+				return okRet(x.X, seen)
+			}
 		}
 		return false, "value " + v.String() + " (" + typeShort(v.Type()) + ")"
 	}
@@ -316,6 +335,91 @@ func runC12(c *Ctx, r *Report) {
 			}
 		}
 	})
+	// helpers: the operand-role argument is made for Cmp's own body only
+	for _, h := range sortedFuncs(helpers) {
+		r.Abstain("C12.R2", ssaFuncName(h), "operand roles inside a comparator helper", c.Pos(h.Pos()), "the helper's results are checked to be three-valued, but which of its operands plays the first and which the second role (and the effect of negating its result) is not decided")
+	}
+	// ---- R6 ---- float -> integer conversions inside the comparator
+	{
+		scope := map[*ssa.Function]bool{cfn: true}
+		for h := range helpers {
+			scope[h] = true
+		}
+		isF2I := func(in ssa.Instruction) (*ssa.Convert, bool) {
+			cv, ok := in.(*ssa.Convert)
+			if !ok {
+				return nil, false
+			}
+			from, ok1 := cv.X.Type().Underlying().(*types.Basic)
+			to, ok2 := cv.Type().Underlying().(*types.Basic)
+			if !ok1 || !ok2 || from.Info()&types.IsFloat == 0 || to.Info()&types.IsInteger == 0 {
+				return nil, false
+			}
+			return cv, true
+		}
+		control := 0
+		for _, fn := range c.ModuleSSAFuncs() {
+			eachInstr(fn, func(in ssa.Instruction) {
+				if _, ok := isF2I(in); ok {
+					control++
+				}
+			})
+		}
+		if control == 0 {
+			r.Undecided("C12.R6 control: the detector finds no float->integer conversion anywhere in the module (int(), round() are expected to have some)")
+		}
+		two63 := constant.MakeFloat64(9223372036854775808.0)
+		n := 0
+		for _, fn := range sortedFuncs(scope) {
+			eachInstr(fn, func(in ssa.Instruction) {
+				cv, ok := isF2I(in)
+				if !ok {
+					return
+				}
+				n++
+				upper, lower := false, false
+				for _, cc := range controlling(cv.Block()) {
+					bin, ok := cc.Cond.(*ssa.BinOp)
+					if !ok {
+						continue
+					}
+					op, x, y := bin.Op, bin.X, bin.Y
+					if kx, isK := x.(*ssa.Const); isK && kx.Value != nil { // const OP v  ->  v OP' const
+						x, y = y, x
+						op = map[token.Token]token.Token{token.LSS: token.GTR, token.LEQ: token.GEQ, token.GTR: token.LSS, token.GEQ: token.LEQ}[op]
+					}
+					k, isK := y.(*ssa.Const)
+					if !isK || k.Value == nil || x != cv.X {
+						continue
+					}
+					if cc.Edge == 1 { // condition false
+						op = map[token.Token]token.Token{token.LSS: token.GEQ, token.LEQ: token.GTR, token.GTR: token.LEQ, token.GEQ: token.LSS}[op]
+					}
+					kv := constant.ToFloat(k.Value)
+					if kv.Kind() != constant.Float && kv.Kind() != constant.Int {
+						continue
+					}
+					switch op {
+					case token.LSS:
+						if constant.Compare(kv, token.LEQ, two63) {
+							upper = true
+						}
+					case token.LEQ:
+						if constant.Compare(kv, token.LSS, two63) {
+							upper = true
+						}
+					case token.GEQ, token.GTR:
+						if constant.Compare(kv, token.GEQ, constant.UnaryOp(token.SUB, two63, 0)) {
+							lower = true
+						}
+					}
+				}
+				r.Check(upper && lower, "C12.R6", ssaFuncName(fn), fmt.Sprintf("float -> integer conversion #%d is guarded by -2^63 <= f < 2^63", n), c.Pos(cv.Pos()),
+					fmt.Sprintf("the converted float is not confined to the representable range on this path (lower bound %v, strict upper bound %v; note float64(math.MaxInt64) is 2^63, so `f <= math.MaxInt64` admits 2^63): the conversion overflows and one value sorts on the wrong side of every integer", lower, upper))
+			})
+		}
+		r.Note("C12.R6: %d float->integer conversions inside the comparator (%d in the module)", n, control)
+	}
 	// Value() applied to both operands first
 	nv := 0
 	for _, vc := range callsIn(cfn, valueFn) {
